@@ -559,7 +559,7 @@ func (g *c16Gen) scalar(srcs []c16Src) (string, string) {
 
 func (g *c16Gen) scalar0(srcs []c16Src) (string, string) {
 	for tries := 0; tries < 4; tries++ {
-		switch rapid.IntRange(0, 11).Draw(g.t, "scalar") {
+		switch rapid.IntRange(0, 13).Draw(g.t, "scalar") {
 		case 0, 1, 2:
 			cs := g.plainCols(c16ColsOfType(srcs, "BIGINT", "DOUBLE", "DOUBLE_INEXACT", "VARCHAR", "BOOLEAN", "TIMESTAMPTZ"))
 			if len(cs) == 0 {
@@ -598,6 +598,27 @@ func (g *c16Gen) scalar0(srcs []c16Src) (string, string) {
 			if r, _, ok := g.pickCol(srcs, "VARCHAR"); ok {
 				g.feat["extract"] = true
 				return g.caseKW("TRIM") + "(" + g.caseKW("BOTH") + " 'h' " + g.caseKW("FROM") + " " + r + ")", "VARCHAR"
+			}
+		case 12, 13:
+			// FROM-keyword builtins nested in one another, the OUTER FROM after
+			// the inner call and followed by an identifier
+			if r, _, ok := g.pickCol(srcs, "VARCHAR"); ok {
+				g.feat["extract"] = true
+				g.feat["nested-from-builtin"] = true
+				F, FOR := g.caseKW("FROM"), g.caseKW("FOR")
+				switch rapid.IntRange(0, 2).Draw(g.t, "nested") {
+				case 0:
+					return g.caseKW("TRIM") + "(" + g.caseKW("LEADING") + " " + g.caseKW("SUBSTRING") + "(" + r + " " + F + " 1 " + FOR + " 1) " + F + " " + r + ")", "VARCHAR"
+				case 1:
+					if n, _, ok2 := g.pickCol(srcs, "BIGINT"); ok2 {
+						return g.caseKW("SUBSTRING") + "(" + g.caseKW("TRIM") + "(" + g.caseKW("BOTH") + " 'h' " + F + " " + r + ") " + F + " " + n + " " + FOR + " 3)", "VARCHAR"
+					}
+					return g.caseKW("TRIM") + "(" + g.caseKW("BOTH") + " " + g.caseKW("TRIM") + "(" + g.caseKW("TRAILING") + " '1' " + F + " " + r + ") " + F + " " + r + ")", "VARCHAR"
+				default:
+					if tc, _, ok2 := g.pickCol(srcs, "TIMESTAMPTZ"); ok2 {
+						return g.caseKW("SUBSTRING") + "(" + r + " " + F + " 1 " + FOR + " " + g.caseKW("EXTRACT") + "(day " + F + " " + tc + ")) || " + g.caseKW("TRIM") + "(" + g.caseKW("LEADING") + " " + g.caseKW("SUBSTRING") + "(" + r + " " + F + " 1 " + FOR + " 1) " + F + " " + r + ")", "VARCHAR"
+					}
+				}
 			}
 		case 9:
 			if r, _, ok := g.pickCol(srcs, "VARCHAR"); ok {
@@ -1148,9 +1169,18 @@ func (g *c16Gen) statement() {
 	if rapid.IntRange(0, 19).Draw(g.t, "usecte") < 7 {
 		ncte = rapid.IntRange(1, 2).Draw(g.t, "ncte")
 	}
+	recursive := rapid.IntRange(0, 7).Draw(g.t, "recursive") == 0
+	if recursive && ncte == 0 {
+		ncte = 1
+	}
 	if ncte > 0 {
 		g.feat["cte"] = true
-		g.kw("WITH")
+		if recursive {
+			g.feat["with-recursive"] = true
+			g.kw("WITH RECURSIVE")
+		} else {
+			g.kw("WITH")
+		}
 		for i := 0; i < ncte; i++ {
 			if i > 0 {
 				g.punct(",")
@@ -1206,6 +1236,31 @@ func (g *c16Gen) statement() {
 				g.toks = append(g.toks, rest...)
 			}
 			g.ctes = append(g.ctes, c16Src{Alias: written, Cols: cols})
+		}
+		if recursive {
+			// the self-referencing member comes AFTER ordinary ones
+			name := rapid.SampledFrom([]string{"steps", "Seq_1", "rsteps"}).Draw(g.t, "recname")
+			if g.cteNames[strings.ToLower(name)] {
+				name = "steps_r"
+			}
+			g.cteNames[strings.ToLower(name)] = true
+			g.punct(",")
+			g.raw(name)
+			g.kw("AS")
+			g.toks[len(g.toks)-1].kind = tkCTEAS
+			g.punct("(")
+			g.kw("SELECT")
+			g.raw("1")
+			g.kw("AS")
+			g.raw("n")
+			g.kw("UNION ALL SELECT")
+			g.raw("n + 1")
+			g.kw("FROM")
+			g.raw(name)
+			g.kw("WHERE")
+			g.raw("n < " + fmt.Sprint(rapid.IntRange(2, 4).Draw(g.t, "recdepth")))
+			g.punct(")")
+			g.ctes = append(g.ctes, c16Src{Alias: name, Cols: []qCol{{"n", "BIGINT"}}})
 		}
 	}
 	g.selectStmt(0, true)
